@@ -8,10 +8,11 @@ package relayer
 // the queue it builds is non-nil. What it checks / does not check w.r.t. the rest of the invariant is analysed in
 // /var/tmp/ag_rel/NOTES.md section 4 (findings G1-G3).
 //@ func InitGenesis
-//@ property C16 C18 C01
+//@ property C16 C18 C01 C02
 //@ ensures stored: has(st.relayer.Relayer) && has(st.relayer.Params) && has(st.relayer.Queue) && has(st.relayer.Randao)
 //@ ensures relayer_as_given: genState.Relayer != nil && st.relayer.Relayer == *genState.Relayer && st.relayer.Params == genState.Params
 //@ ensures period: st.relayer.Params.ElectingPeriod != 0
+//@ ensures sequence_restored: st.relayer.Sequence == genState.Sequence
 //@ modifies st.relayer.Relayer, st.relayer.Params, st.relayer.Queue, st.relayer.Randao, st.relayer.Sequence, st.relayer.Voters, st.relayer.Pubkeys
 // C18 (import acceptance, structural part): an export of a running chain names a proposer and members that are stored voters
 // (whatever their status: a member whose removal is queued is still a member until the next election), so the two
